@@ -1161,6 +1161,15 @@ class Model:
 
         graph = nx.DiGraph(edges)
         graph.add_nodes_from(nodes)
+
+        # simulating from a distribution at a VarValue proxy sets the value node behind
+        # the proxy, so nodes that read this value node directly must come later, too
+        for node in nodes:
+            if isinstance(node, Dist) and isinstance(node.at, VarValue):
+                value_node = node.at.inputs[0]
+                if not nx.has_path(graph, value_node, node):
+                    graph.add_edge(node, value_node)
+
         return graph
 
     @staticmethod
